@@ -17,56 +17,89 @@ KERNEL_SAMPLE = 12
 _PINS = json.load(open(os.path.join(os.path.dirname(os.path.abspath(__file__)), "pins", "C17.json")))
 # every statement is pinned (driver/props/pins/C17.json, written by tools/mkpins.py after a REVIEWED change): the audit
 # compiles `Check (name : pinned statement)` for each, so weakening Properties/C17.v is reported
-_NAMES = ("guarded_content_confined", "reply_ok_meaning", "range_of_clean_body_clean", "spelling_decodes",
-          "ext_lookup_spelling_independent", "allow_ips_never_stored", "guarded_answer_is_404",
+_NAMES = ("guarded_content_confined", "reply_ok_meaning", "range_of_clean_body_clean", "ranged_reply_confined", "spelling_decodes",
+          "ext_lookup_spelling_independent", "single_decode_only", "listed_is_exact", "address_families_disjoint",
+          "allow_ips_never_stored", "guarded_answer_is_404",
           "refused_reply_is_404", "hidden_file_indistinguishable_from_absent", "error_page_line_v0_refuted",
           "tmpl_names_guarded_file_refuted", "allow_404_template_refuted", "file_cache_transparent",
           "guarded_content_confined_with_file_cache",
           "private_spelling_v0_refuted", "cache_directive_v0_refuted", "violates_contradicts_confined")
 THEOREMS = [(n, _PINS[n]) for n in _NAMES]
-RULE = ("histories of requests against the real kvarn::handle_cache in process (host = Extensions::empty() or, for a third of the scenarios, "
-        "Extensions::new() [default Prime 'Expand . and /': /e/ -> /e/index.html, /r. -> /r.html], + kvarn_extensions::mount_all, "
-        "fixture files written to a fresh directory, chosen client address per request) vs. the extracted Coq model (correspondence: status, "
-        "cache-control, last-modified presence, decoded body, identity body per request). Fixture files carry a marker SECRET:<file>:<nonce> "
-        "after their first line; files: *.private (also in a sub-directory), '!> hide', '!> allow-ips <list>' with and without '&> cache ...' "
-        "before/after it, two allow-ips directives, allow-ips + hide, CRLF line ends, near-miss address texts (10.0.0.11 vs 10.0.0.1, leading "
-        "zeros, /32, ::ffff:10.0.0.1, 3 or 5 groups), unguarded controls (x.PRIVATE, .private, plain). Histories: listed address first, then "
-        "other addresses, per spelling; spellings = percent-encoding of a subset of the characters of the path (exhaustive scenarios: all 2^k "
-        "subsets of the last k = min(n, 8..9) characters - at least the whole '.private' suffix - for one private, one allow-ips and one hide file in "
-        "rotation; either hex case), plus structural variants (trailing '/', '/.', '//', '%00', '%ff', encoded '/'); GET/HEAD/POST, "
-        "Range (satisfiable, unsatisfiable), Accept-Encoding, queries, vary rules on the raw path (variant push), response cache and file cache "
-        "on/off. Oracles: (1) spec component guards.spec (Gallina [permitted_b]): a SECRET marker in a body => permitted for exactly that file; "
-        "(2) model-independent Python oracle with its own line/address parser (ipaddress module). "
+RULE = ("(1) guards.run: histories of requests against the real kvarn::handle_cache in process (host = Extensions::empty() or, for a third of the "
+        "scenarios, Extensions::new() [default Prime 'Expand . and /': /e/ -> /e/index.html, /r. -> /r.html; CORS denial route], + "
+        "kvarn_extensions::mount_all; fixture files written to a fresh directory: public/..., errors/404.html (plain, with a '!> ' line, CRLF, "
+        "'!> tmpl' template + templates/err), errors/416.html, errors/406.html; chosen client address per request: 10.0.x.y, any IPv4, any IPv6 "
+        "incl. IPv4-mapped and IPv4-compatible forms; stale and negative entries put into the real host.file_cache) vs. the extracted Coq model "
+        "(correspondence per request: status, decoded body, identity body, presence of cache-control, presence of last-modified except on 404). "
+        "Fixture files carry a marker SECRET:<file>:<nonce> after their first line; files: *.private (also in a sub-directory), '!> hide', "
+        "'!> allow-ips <list>' with IPv4 and IPv6 arguments (compressed, upper case, leading zeros, embedded IPv4; near misses: 10.0.0.11 vs "
+        "10.0.0.1, leading zeros, /32, brackets, zone, two '::', 9 groups), with and without '&> cache ...' / '&> download' before/after it, two "
+        "allow-ips directives, allow-ips + hide, CRLF line ends, unguarded controls (x.PRIVATE, .private, plain). Histories: a listed address "
+        "first, then other addresses (also carrying x-forwarded-for / forwarded / x-real-ip / client-ip ... = a listed address), per spelling; "
+        "then the same request for a path that does not exist (twin). Spellings = percent-encoding of a subset of the characters of the path "
+        "(exhaustive scenarios: all 2^k subsets of the last k = min(n, 8..9) characters for one private, one allow-ips and one hide file in "
+        "rotation; either hex case), plus spellings that do NOT denote the file (double encoding %252E, invalid escapes, %00, %C0%AE, ';x', "
+        "trailing '/', '/.', '//', encoded '/', case). GET/HEAD/POST, Range, Accept-Encoding, Origin, queries, If-Modified-Since, vary rules "
+        "(variant push), clear_page/clear_all, waits past a 1 s lifetime, response cache and file cache on/off. Oracles: (a) spec component "
+        "guards.spec (Gallina [permitted_b] over what the server holds): a SECRET marker in a body => permitted for exactly that file; (b) "
+        "model-independent Python oracle with its own line/address parser (ipaddress module); (c) refused-vs-absent twins, real against "
+        "real: same status, body, identity body - and the same cache-control / last-modified where nothing but hide / *.private marks the "
+        "file. (2) guards.wire: histories over loopback HTTP/1.1 connections served by kvarn::handle_connection with the chosen peer address "
+        "(what SendKind::send wrote: Range slices of guarded bodies, HEAD, 406, every header); the harness itself reports marker leaks, body "
+        "bytes after HEAD and any difference (status, every header but date, body) between a refused file and a path that does not exist; "
+        "the specified result is the empty list. "
         "distinct_nontrivial = distinct (scenario, outcome) pairs in which a listed address received guarded content and a later request was refused")
 ASSUMPTIONS = [
-    "the file system does not change during a history and has no links that give a guarded file a second name (fs is a function of the path text; "
-    "the fixture tree uses PathSan's resolution: ENOTDIR, empty and '.' components, '..')",
-    "error pages are the hard-coded ones: they carry no '!> ' line and no secret (theorem hypotheses errpage_plain / errpage_clean); a host whose "
-    "errors/404.html is a '!> tmpl' template is not modelled",
-    "Present extensions other than allow-ips, hide, cache, download (tmpl, nonce, user-supplied ones) are not on the modelled host",
-    "client addresses are IPv4 (10.0.x.y); an allow-ips argument that only parses as IPv6 never equals them",
-    "content negotiation is abstracted: bodies are compared after decoding content-encoding with standard decoders; a 406 carries the error page",
-    "sequential histories; moka as a finite map (C03's assumptions); Range is applied after handle_cache (C09) to a body this property already covers",
-    "a file named exactly '.private' (empty stem) is not '*.private' for Path::extension and is served",
+    "what the server holds for a path (file-cache entry, else disk) does not change during a history, and there are no links that give a "
+    "guarded file a second name (fs is a function of the path text; the fixture tree uses PathSan's resolution: ENOTDIR, empty and '.' "
+    "components, '..'); the file cache itself - any initial content, any fills - is covered by file_cache_transparent",
+    "the secret (any byte string) occurs in no error page and templates introduce no guarded content (hypotheses Herr_clean / Htmpl of "
+    "guarded_content_confined; error pages MAY carry a '!> ' line and be '!> tmpl' templates). A page whose '!> tmpl' argument names a guarded "
+    "file violates Htmpl: known class tmpl-names-guarded-file",
+    "refused_reply_is_404 assumes that no error page is a template (known class allow-ips-404-template-unrendered), that the status filter "
+    "drops 400 and 416 (the default does) and that override URIs of Prime extensions are internal ('/./...'); "
+    "hidden_file_indistinguishable_from_absent assumes error pages without a '!> ' line",
+    "Present extensions other than allow-ips, hide, cache, download, tmpl (nonce, user-supplied ones) are not on the modelled host; "
+    "Prepare extensions other than the CORS denial route neither",
+    "content negotiation is abstract in the theorems (any refusal function); in the model run nothing is refused: Accept-Encoding values that "
+    "refuse every coding are sent in the wire histories only; bodies are compared after decoding content-encoding with standard decoders",
+    "sequential histories; moka as a finite map (C03's assumptions); HTTP/2 push (kvarn_extensions::push issues an internal handle_cache with "
+    "the client's address) is not executed by the harness",
+    "a file named exactly '.private' (empty stem) is not '*.private' for Path::extension and is served; an allow-ips argument lists an "
+    "address only in the notations IpAddr::from_str accepts (no /32, no brackets, no zone); an IPv4 address equals no IPv6 address, not "
+    "even its mapped form (::ffff:a.b.c.d clients of a dual-stack listener are refused by an IPv4 list: fail closed)",
 ]
-TRUSTED = ["modelled: extensions/src/lib.rs ip_allow, hide (no template), cache, download, mount_all; src/extensions.rs resolve_present; src/lib.rs "
-           "get_response/handle_request file path + handle_cache (Model/Cache.v); std Path::extension, IpAddr::from_str (IPv4 part), "
-           "ClientCachePreference/ServerCachePreference::from_str; Model/PresentLine.v (C16) for the '!> ' line; Model/PathSan.v (C01) for decoding/sanitize"]
-LEVEL_TEXT = ("Coq theorem guarded_content_confined over the model of the repaired code (file-serving path + Present directives + response "
-              "cache): for every file system in which a secret byte string occurs only inside guarded files, every history of requests / clears / "
-              "waits from the empty cache (any raw percent-encoded paths, queries, methods, headers, client addresses, in any order), response cache "
-              "on or off, any negotiation outcome and vary rules, a reply (body sent or identity body) contains the secret only if the request's "
-              "decoded path is a file whose line has allow-ips and no hide, that is not *.private, and whose every allow-ips directive lists the "
-              "request's own client address (reply_ok_meaning). Proof: per-request decision of the layer below the cache + inductive cache invariant "
-              "(no stored variant contains the secret; no key belongs to a raw path that can produce it - needed because a variant push stores "
-              "without consulting the server preference) using allow_ips_never_stored (allow-ips forces preference None whatever cache directives "
-              "surround it). spelling_decodes / ext_lookup_spelling_independent: every subset-of-positions, either-hex-case encoding denotes the same "
-              "file and the same extension lookup. The statement is refuted for the code before the two fix: commits (private_spelling_v0_refuted, "
-              "cache_directive_v0_refuted; both reproduced on the real code first). Tied to the repaired /repo by the differential run with a "
-              "secret-marker oracle that does not depend on the model.")
+TRUSTED = ["modelled: extensions/src/lib.rs ip_allow, hide (incl. a templated 404 page), cache, download, templates (Model/Templates.v, C02), mount_all; "
+           "src/extensions.rs resolve_present; src/error.rs default (errors/<code>.html or the hard-coded page); src/lib.rs get_response/"
+           "handle_request file path and the CORS denial route + handle_cache in full (Model/CacheX.v, C03/C04); src/read.rs file / file_cached "
+           "(file cache as a map with negative entries); std Path::extension, core::net::parser IpAddr::from_str (IPv4 and IPv6, Rust 1.95), "
+           "ClientCachePreference/ServerCachePreference::from_str; Model/PresentLine.v (C16) for the '!> ' line; Model/PathSan.v (C01) for "
+           "decoding/sanitize"]
+LEVEL_TEXT = ("Coq theorem guarded_content_confined over the model of the repaired code (file-serving path + Present directives incl. '!> tmpl' + error "
+              "pages with lines of their own + CORS denial route + the response cache of Model/CacheX.v): for every file system in which a secret "
+              "byte string occurs only inside guarded files, every history of requests / clears / waits from the empty cache (any raw "
+              "percent-encoded paths, queries, methods, headers, client addresses - every IPv4 and IPv6 address -, in any order), response cache on "
+              "or off, any status filter, any negotiation outcome, vary rules, rewriting and overriding Prime extensions, a reply (body sent or "
+              "identity body) contains the secret only if the request's decoded path is a file whose line has allow-ips and no hide, that is not "
+              "*.private, and whose every allow-ips directive lists the request's own client address (reply_ok_meaning). Proof: per-request decision "
+              "of the layer below the cache (an answer with the secret is an answer to a permitted request AND has server preference None, "
+              "whatever cache directives surround allow-ips) + inductive cache invariant (what was admitted carries no secret). "
+              "file_cache_transparent + guarded_content_confined_with_file_cache: the same with the file cache as state, for any initial content "
+              "(stale, negative entries), any fills, on or off - 'content of a file' is what the server holds for its path. refused_reply_is_404: in "
+              "every history the reply to a request for a hidden / private / not-listed file is the host's 404 page as served for a path that does "
+              "not exist (or 304 of that cached 404, or 406) - also through the cache; hidden_file_indistinguishable_from_absent: removing plainly "
+              "hidden files changes no observation (status, headers, bodies, last-modified, hit or miss) of any history. guarded_answer_is_404 "
+              "below the cache; spelling_decodes / ext_lookup_spelling_independent: every subset-of-positions, either-hex-case encoding denotes the "
+              "same file and the same extension lookup. Refuted for the code before the three fix: commits (private_spelling_v0_refuted, "
+              "cache_directive_v0_refuted, error_page_line_v0_refuted; each reproduced on the real code first) and for the two known classes on the "
+              "faithful model (tmpl_names_guarded_file_refuted, allow_404_template_refuted). Tied to the repaired /repo by the differential run "
+              "with three oracles that do not depend on the model (marker, refused-vs-absent twins, wire-level judge).")
 LEVEL_NOTE = ("Trusted: Coq kernel; extraction (sample re-checked in-kernel); hand transcription validated by the differential run; "
-              "fs / error pages / negotiation / vary as section variables with the stated hypotheses. No axioms.")
-TECHNIQUE = "Coq proof (cache invariant over all histories + per-request decision) + differential correspondence on kvarn::handle_cache with secret-marker oracle"
+              "fs / error pages / template engine / negotiation / vary / Prime extensions as section variables with the stated hypotheses; Range, "
+              "HEAD and the rest of SendKind::send are not modelled (range_of_clean_body_clean + the wire-level oracle). No axioms. All 21 "
+              "statements are pinned (driver/props/pins/C17.json).")
+TECHNIQUE = ("Coq proof (cache invariants over all histories + per-request decision + simulation for the file cache) + differential correspondence on "
+             "kvarn::handle_cache with secret-marker, refused-vs-absent and wire-level oracles")
 
 REPORT = [b"cache-control", b"?last-modified"]
 HEX_U = "0123456789ABCDEF"
@@ -414,8 +447,9 @@ def witnesses(rng):
     cases += mk(rng, files, [greq(b"/h.txt", headers=[(b"x-v", b"a")]), greq(b"/h.txt", addr=2, headers=[(b"if-modified-since", b"@T+100")]),
                              greq(b"/h.txt", addr=2, headers=[(b"if-modified-since", b"@T+100"), (b"x-v", b"A")])], "corpus/ims-variant", vary=vary)
     # the third repaired defect: errors/404.html with an extension line of its own
-    for e404 in (b"!> cache client:none\n<html>PUBLIC:custom 404</html>", b"!> unknown-ext\r\n<html>PUBLIC:custom 404</html>", b"<html>PUBLIC:plain custom 404</html>"):
-        f2 = files + [xl(xb(b"errors/404.html"), xb(e404))]
+    for e404 in (b"!> cache client:none\n<html>PUBLIC:custom 404</html>", b"!> unknown-ext\r\n<html>PUBLIC:custom 404</html>", b"<html>PUBLIC:plain custom 404</html>",
+                 b"!> tmpl err\n<html>PUBLIC:templated 404 $[title]</html>"):
+        f2 = files + [xl(xb(b"errors/404.html"), xb(e404)), xl(xb(b"templates/err"), xb(b"$[title]\nPUBLIC:not found\n"))]
         ops = [greq(b"/secret.private", addr=2), greq(b"/nothing-here", addr=2), greq(b"/h.txt", addr=2), greq(b"/nothing-here", addr=2),
                greq(b"/a.txt", addr=2), greq(b"/nothing-here.txt", addr=2), greq(b"/a.txt", addr=1), greq(b"/zz.private", addr=2), greq(b"/secret.private", addr=2)]
         cases += mk(rng, f2, ops, "corpus/error-page-line", twins=[(0, 1, "h"), (2, 3, "H"), (4, 5, "a"), (0, 7, "H")], plain_err=e404.startswith(b"<"))
